@@ -28,6 +28,8 @@ use vkit::{Ctx, Src};
 
 const IP_A: [u8; 4] = [10, 0, 0, 1];
 const IP_B: [u8; 4] = [10, 0, 0, 2];
+/// second address of the receiver in the reassembly part
+const IP_B2: [u8; 4] = [10, 0, 0, 22];
 const MAC_A: [u8; 6] = [0x02, 0, 0, 0, 0, 0x0a];
 const MAC_B: [u8; 6] = [0x02, 0, 0, 0, 0, 0x0b];
 const PEERS: [([u8; 4], [u8; 6]); 3] = [
@@ -439,6 +441,10 @@ fn case_reasm(src: &mut Src, ctx: &mut Ctx) -> Result<(), Fail> {
     let seed = src.u64();
     let mut b = Host::new("receiver", eth, mtu_b, IP_B, MAC_B, seed);
     add_peers(&mut b, &PEERS);
+    // the receiver owns a second address; which datagrams go to it is decided from bits of the
+    // drawn seed (no further draws), so that datagrams differing in nothing but the destination
+    // - same source, protocol and identification - are in flight together
+    b.add_ip(IP_B2);
     ctx.label(if eth { "medium:ethernet" } else { "medium:ip" });
     ctx.note(|| format!("receiver: {} IP MTU {}", if eth { "Ethernet" } else { "Medium::Ip" }, mtu_b));
     let mut per: Vec<Vec<Pkt>> = vec![];
@@ -453,18 +459,29 @@ fn case_reasm(src: &mut Src, ctx: &mut Ctx) -> Result<(), Fail> {
             1 => src.usize(28, FRAGMENTATION_BUFFER_SIZE),
             _ => src.usize(FRAGMENTATION_BUFFER_SIZE - 8, FRAGMENTATION_BUFFER_SIZE + 1000),
         };
+        let to = if (seed >> (16 + 2 * per.len())) & 3 == 0 { IP_B2 } else { IP_B };
         let d = match src.weighted(&[3, 2, 1, 2]) {
-            0 => Dgram::udp(peer, IP_B, 4000 + src.usize(0, 2) as u16, UDP_PORTS[src.usize(0, 1)], pattern(serial, total - 28)),
-            1 => Dgram::echo(peer, IP_B, true, if src.chance(1, 5) { IDENT + 1 } else { IDENT }, serial, pattern(serial, total - 28)),
-            2 => Dgram::echo(peer, IP_B, false, IDENT, serial, pattern(serial, total - 28)),
-            _ => Dgram::raw(peer, IP_B, *src.pick(&[64u8, 1, 200]), pattern(serial, total - 20)),
+            0 => Dgram::udp(peer, to, 4000 + src.usize(0, 2) as u16, UDP_PORTS[src.usize(0, 1)], pattern(serial, total - 28)),
+            1 => Dgram::echo(peer, to, true, if src.chance(1, 5) { IDENT + 1 } else { IDENT }, serial, pattern(serial, total - 28)),
+            2 => Dgram::echo(peer, to, false, IDENT, serial, pattern(serial, total - 28)),
+            _ => Dgram::raw(peer, to, *src.pick(&[64u8, 1, 200]), pattern(serial, total - 20)),
         };
         let mut id = if small_ids { 1 + src.usize(0, 1) as u16 } else { src.u16() };
+        // a datagram to the second address takes, where there is one, the identification of an
+        // earlier datagram from the same source with the same protocol to the first address
+        if to == IP_B2 {
+            if let Some(k) = keys.iter().find(|k| k.0 == d.src && k.2 == d.proto && k.1 != to) {
+                id = k.3;
+            }
+        }
         while keys.contains(&(d.src, d.dst, d.proto, id)) {
             id = id.wrapping_add(1);
         }
         if keys.iter().any(|k| k.3 == id) {
             ctx.label("ident-shared-by-datagrams-differing-in-source-or-protocol");
+        }
+        if keys.iter().any(|k| k.3 == id && k.0 == d.src && k.2 == d.proto) {
+            ctx.label("ident-shared-by-datagrams-differing-in-destination-only");
         }
         keys.push((d.src, d.dst, d.proto, id));
         let pieces = draw_pieces(src, d.ip_payload.len(), ctx);
